@@ -2,6 +2,11 @@
 props — per-property configuration of ./check.
 """
 
+def proj_rec(op, s):
+    if op == "recover" and s.startswith("err "):
+        return "reject"
+    return s
+
 def proj_c08(op, s):
     if op == "pubkey_parse" and s.startswith("err "):
         return "reject"
@@ -40,7 +45,72 @@ def c18_static_search(ctx, run, LEAN, WORK):
                  "driver": out.strip()[:300], "static": True}]
     return []
 
+def c17_race_run(ctx, tier, seed):
+    """fresh processes built with -race: N goroutines start together, answers compared with solo runs"""
+    import os, subprocess, shutil, glob
+    VERIF = os.path.dirname(os.path.dirname(os.path.abspath(__file__)))
+    REPO = os.environ.get("VERIF_REPO", "/repo")
+    hb = os.path.join(VERIF, ".work", "hbuild.race.%d" % os.getpid())
+    shutil.rmtree(hb, ignore_errors=True)
+    os.makedirs(hb)
+    try:
+        for f in glob.glob(os.path.join(VERIF, "harness", "*.go")):
+            shutil.copy(f, hb)
+        open(os.path.join(hb, "go.mod"), "w").write(open(os.path.join(VERIF, "harness", "go.mod")).read().replace("=> /repo", "=> " + REPO))
+        shutil.copy(os.path.join(REPO, "go.sum"), hb)
+        env = dict(os.environ, GOFLAGS="-mod=mod", GOPROXY="off", GOSUMDB="off", GOTOOLCHAIN="local", CGO_ENABLED="1")
+        binp = os.path.join(hb, "harness.race")
+        p = subprocess.run(["go", "build", "-race", "-tags", "verif", "-o", binp, "."], cwd=hb, env=env, capture_output=True, text=True, timeout=900)
+        if p.returncode != 0:
+            return False, "race build failed: " + p.stderr[-1500:]
+        runs = 8 if tier == "quick" else 60
+        total = 0
+        for i in range(runs):
+            q = subprocess.run([binp, "conc", tier, str(seed * 100 + i), hb], env=dict(env, GORACE="halt_on_error=1"), capture_output=True, text=True, timeout=900)
+            out = q.stdout + q.stderr
+            if q.returncode != 0 or "DATA RACE" in out or "CONC-MISMATCH" in out:
+                return False, "concurrent run %d: rc=%d %s" % (i, q.returncode, out[-1500:])
+            import re
+            m = re.search(r"ops=(\d+)", out)
+            total += int(m.group(1)) if m else 0
+        ctx.setdefault("extra_coverage", {})["race_runs"] = {"fresh_processes": runs, "concurrent_ops": total, "race_detector": True}
+        return True, "%d fresh -race processes, %d concurrent ops, no race, no mismatch" % (runs, total)
+    finally:
+        shutil.rmtree(hb, ignore_errors=True)
+
 PROPS = {
+    "C01": {
+        "level_text": "Theorems (Lean 4 kernel) about a model of sign/signRFC6979 whose point arithmetic is the regenerated formula programs: with a given nonce the model returns exactly the FIPS 186 signature (r = x(kG) mod N, s = k^-1(e + r d)) with s normalised into the lower half and the recovery code (parity of y, x >= N) adjusted for the flip; the deterministic signer is the first index of the RFC 6979 HMAC-SHA256 candidate stream whose signature exists; r, s non-zero, s <= (N-1)/2, code < 4; the hash is read as its first 32 bytes reduced mod N. These are conditional on PointSpec (the C03/C04 layer). Correspondence: every generated (key, hash) - all hash lengths 0..70, e >= N, all-zero/all-one, keys 1 and N-1, forced nonces through the sign hook incl. s = 0 - is signed by the real code twice around unrelated calls in all five encodings (object, DER, compact x2, crypto.Signer x2) and compared byte for byte with the model and with an independent textbook ECDSA + RFC 6979 + SHA-256 written in Lean, whose result is additionally verified by the textbook verifier.",
+        "level_note": "Conditional on PointSpec (see trusted base); HMAC-SHA256/SHA-256 are modelled in Lean and diffed against crypto/sha256 through every signature; termination of the retry loop is by fuel (a signature exists at index 0 with probability 1-2^-250).",
+        "technique": "Lean 4 proof over a model built on regenerated formula programs (Secp.Props.C01, conditional on PointSpec) + differential correspondence against the code and an independent Lean ECDSA oracle",
+        "trusted_base": COMMON_TRUST + ["Model.Ecdsa mirrors signature.go (hand-written control flow; point operations are the regenerated formula programs)", "PointSpec (scalar multiplication / addition / ToAffine / DecompressY compute the affine group law) is assumed by the protocol theorems; it is the statement of C03/C04 and is validated on every run by comparing the model with the independent affine specification"],
+        "assumptions": ["PointSpec", "0 < d < N"],
+    },
+    "C02": {
+        "level_text": "Theorems (Lean 4 kernel): the Jacobian comparison at the end of Verify - r*Z^2 = X or (r < P-N and (r+N)*Z^2 = X) - holds exactly when x(R) mod N = r, for ALL X, Z != 0, r < N (this is where the rare x >= N signatures live); and the model of Verify returns exactly the textbook verdict (r, s non-zero, R = (e/s)G + (r/s)Q finite, x(R) mod N = r) for every hash, every Q on the curve and all r, s < N, conditional on PointSpec. Correspondence: valid signatures, (r, N-s), nonce-x >= N signatures CONSTRUCTED by key recovery (4+ per run) and their near misses, u1 G + u2 Q = identity by choosing the hash, single-bit and boundary mutations, wrong keys, random forgeries, the P-N guard boundary - real Verify vs model vs independent textbook verifier.",
+        "level_note": "Conditional on PointSpec (see trusted base). 'accepts both s and N-s' and 'rejects every other alteration' are properties of the textbook predicate; they follow from the group law (Secp.Proofs.SpecGroup) and are exercised by the generators.",
+        "technique": "Lean 4 proof (Secp.Props.C02: field-arithmetic lemma for all inputs + model = textbook verifier, conditional on PointSpec) + differential correspondence with directed generators",
+        "trusted_base": COMMON_TRUST + ["Model.Ecdsa mirrors signature.go (hand-written control flow; point operations are the regenerated formula programs)", "PointSpec (scalar multiplication / addition / ToAffine / DecompressY compute the affine group law) is assumed by the protocol theorems; it is the statement of C03/C04 and is validated on every run by comparing the model with the independent affine specification"],
+        "assumptions": ["PointSpec", "Q on the curve, r, s < N (the property's domain)"],
+    },
+    "C07": {
+        "project": proj_rec,
+        "level_text": "Theorems (Lean 4 kernel): for arbitrary (r, s, code, hash) with 0 < r < N, s < N, code < 4 the model of RecoverPublicKey succeeds exactly when the textbook SEC1 4.1.6 procedure does and returns the same key (conditional on PointSpec); it panics exactly for the documented misuse (no recovery code); Export maps high s to (N-s, code xor 1) and leaves low s alone; both compact layouts carry exactly Export's triple; ParseCompactSignature inverts ExportCompact for headers 27/31. Correspondence: produced signatures through object/Export/ExportCompact (both layouts, offsets 27, 31, 0)/SignCompact/RecoverCompact, high-s twins with their flipped codes (the F1 defect, now fixed, is caught here), all four codes, r around P-N with and without the overflow bit, x not on the curve, headers 0..255, r/s boundary values.",
+        "level_note": "Conditional on PointSpec (see trusted base). 'a returned key verifies the signature' and 'recovering from a produced signature returns the signer' are group-law consequences (Secp.Proofs.SpecGroup) exercised on every produced signature by the correspondence run.",
+        "technique": "Lean 4 proof (Secp.Props.C07, conditional on PointSpec) + differential correspondence incl. export/recover round trips",
+        "trusted_base": COMMON_TRUST + ["Model.Ecdsa mirrors signature.go (hand-written control flow; point operations are the regenerated formula programs)", "PointSpec (scalar multiplication / addition / ToAffine / DecompressY compute the affine group law) is assumed by the protocol theorems; it is the statement of C03/C04 and is validated on every run by comparing the model with the independent affine specification"],
+        "assumptions": ["PointSpec"],
+    },
+    "C17": {
+        "correspondence": False,
+        "extra_steps": [("race-run", c17_race_run)],
+        "extra_is_witness": True,
+        "level_text": "PARTIAL. (1) Regenerated facts (tools/gotr T6, all three packages): the inventory of shared roots (package-level variables and closure state of package-level function values - the base-point table), every store rooted in one of them, every call handing such memory to a parameter the callee may write through (write summaries closed over calls, local aliases resolved), each with its guard; Lean `decide` shows every such write is under package initialisation or sync.Once.Do. (2) A theorem by induction over ALL schedules of any number of accessor threads in an interleaving model: the initialiser runs at most once and every observation is the fully built value; with an unsynchronised nil-check instead, a 2-thread double-initialisation schedule is exhibited. (3) Supporting dynamic run: fresh processes built with -race, goroutines starting together on a mix of keygen/sign/verify/recover/parse/scalar-mult, every answer compared with the solo answer.",
+        "level_note": "Partial: the interleaving model is sequentially consistent - the Go memory model, runtime and sync.Once implementation are trusted; T6's may-alias approximation ignores interfaces, function values, unsafe and assumes functions of other packages do not write through their arguments; determinism of results under concurrency follows from read-only shared state only at that level of abstraction. The -race run is testing, labelled as such.",
+        "technique": "Lean 4 invariant proof over all schedules of an interleaving model + `decide` on regenerated shared-state facts; -race run as supporting evidence",
+        "trusted_base": ["Lean 4.33.0 kernel", "tools/gotr T6 extraction and alias approximation", "Go memory model, runtime, sync.Once", "race detector (supporting)"],
+        "assumptions": ["sequentially consistent interleavings", "callers use their own values (no sharing of caller-owned objects across goroutines)"],
+    },
     "C18": {
         "correspondence": False,
         "static_search": c18_static_search,
